@@ -555,12 +555,38 @@ Definition infidelity_derivative (g : grid) : M (tag * how) :=
 Definition propagator_at : M unit :=
   diagonalize ;;; t_prop ;;; lazy_prop S_propagators ;;; lazy_prop S_eigvecs ;;; may_raise L_cexp ;;; ret tt.
 
-(* what concatenate(...) does to an input pulse that is not the last one (equal noise operators,
-   frequencies given), what extend(...) does to an input, what concatenate_periodic does *)
-Definition concat_input (g : grid) : M unit :=
-  tau_prop ;;; get_total_phases g ;;; tpl_prop ;;; get_cm g false ;;; lazy_prop S_total_propagator.
-Definition extend_input (g : grid) : M unit := get_cm g false ;;; ret tt.
-Definition periodic_input : M unit :=
+(* ---- use as an INPUT of concatenate / concatenate_periodic / extend / remap: these functions call getters and
+   lazy properties of the pulses they are given, i.e. they change the caches of their arguments *)
+
+(* the frequencies the composition functions work with: supplied (Some g), or the input's own cached ones *)
+Definition chosen_grid (go : option grid) : M (option grid) :=
+  match go with
+  | Some g => ret (Some g)
+  | None => o <- getslot S_omega ;; ret (match o with Some (TF g) => Some g | _ => None end)
+  end.
+
+(* concatenate(pulses, omega=..., calc_filter_function=..., calc_pulse_correlation_FF=...) seen from one of the pulses:
+   [go] = None: no omega supplied and this pulse's cached frequencies are the ones chosen (ValueError if it has
+   none and the filter function was requested); [last]: the pulse is the last one (no total phases / Liouville
+   propagator needed); [early]: the function returns after concatenate_without_filter_function; [missing]: the
+   other pulses have noise operators this pulse lacks (its eigen-data and times are needed) *)
+Definition as_concat_input (go : option grid) (last early missing : bool) : M unit :=
+  tau_prop ;;;
+  if early then ret tt
+  else
+    og <- chosen_grid go ;;
+    match og with
+    | None => raise E_value
+    | Some g =>
+        (if last then ret tt else get_total_phases g ;;; tpl_prop) ;;;
+        get_cm g false ;;;
+        (if missing then lazy_prop S_eigvals ;;; lazy_prop S_eigvecs ;;; lazy_prop S_propagators ;;; t_prop
+         else ret tt) ;;;
+        lazy_prop S_total_propagator
+    end.
+
+(* concatenate_periodic(pulse, repeats) *)
+Definition as_periodic_input : M unit :=
   tau_prop ;;;
   c <- is_cached S_control_matrix ;;
   if c then
@@ -571,17 +597,54 @@ Definition periodic_input : M unit :=
     end
   else ret tt.
 
+(* extend(mapping, omega=..., cache_diagonalization=..., cache_filter_function=...) seen from one of the pulses (Pauli
+   basis): [diag]: the diagonalization is cached in the new pulse (eigen-data of the inputs needed); [go] = Some g:
+   the filter function is cached for the supplied frequencies; None: for the inputs' own ones, if all of them have a
+   control matrix cached for equal frequencies ([all_cached]: the other pulses do) *)
+Definition as_extend_input (go : option grid) (diag all_cached : bool) : M unit :=
+  (if diag then lazy_prop S_eigvals ;;; lazy_prop S_eigvecs ;;; lazy_prop S_propagators else ret tt) ;;;
+  match go with
+  | Some g => get_cm g false ;;; ret tt
+  | None =>
+      c <- is_cached S_control_matrix ;; o <- getslot S_omega ;;
+      match o with
+      | Some (TF g) => if c && all_cached then get_cm g false ;;; ret tt else ret tt
+      | _ => ret tt
+      end
+  end.
+
+(* remap(pulse, order): everything that is cached is carried over through the getters, for the pulse's own
+   frequencies; [pauli]: the basis is a Pauli basis (otherwise control matrices are not retained) *)
+Definition as_remap_input (pauli : bool) : M unit :=
+  o <- getslot S_omega ;;
+  match o with
+  | Some (TF g) =>
+      c1 <- is_cached S_total_phases ;;
+      (if c1 then get_total_phases g ;;; ret tt else ret tt) ;;;
+      c2 <- is_cached S_filter_function ;;
+      (if c2 then get_ff g Fidelity First false ;;; ret tt else ret tt) ;;;
+      c3 <- is_cached S_control_matrix ;;
+      if pauli && c3 then get_cm g false ;;; ret tt else ret tt
+  | _ => ret tt
+  end.
+
+(* cache_* with user data of the wrong shape (commit a6fecba): ValueError after the frequency guard *)
+Definition shape_fail (g : grid) : M unit := guard g ;;; raise E_value.
+
+(* user-supplied arrays: what the caller says they are, wrong values, wrong shape *)
+Inductive udata := UOk | UBad | UShape.
+
 (* ------------------------------------------------------------------ the public alphabet *)
 Inductive op :=
 | GetCM (g : grid) (ci : bool)
-| CacheCM (g : grid) (user : option (bool * bool)) (ci : bool)   (* user: (correct?, 4-d?) *)
+| CacheCM (g : grid) (user : option (udata * bool)) (ci : bool)   (* user: (what, 4-d?) *)
 | GetPCCM
 | GetFF (g : grid) (w : which) (o : order) (ci : bool)
-| CacheFF (g : grid) (cm : option (bool * bool)) (ff : option bool) (w : which) (o : order) (ci : bool)
+| CacheFF (g : grid) (cm : option (udata * bool)) (ff : option udata) (w : which) (o : order) (ci : bool)
 | GetPCFF (w : which)
 | GetDeriv (g : grid)
 | GetPhases (g : grid)
-| CachePhases (g : grid) (user : option bool)
+| CachePhases (g : grid) (user : option udata)
 | Diagonalize
 | LazyProp (s : slot)           (* eigvals, eigvecs, propagators, total_propagator *)
 | TplProp | TProp | TauProp
@@ -592,10 +655,14 @@ Inductive op :=
 | Cumulant (g : grid) (pw : pwhich) (second : bool) (cio : option bool)
 | ErrorTransferMatrix (g : grid) (second ci : bool)
 | InfidelityDerivative (g : grid)
-| ConcatInput (g : grid) | ExtendInput (g : grid) | PeriodicInput | RemapInput
+| AsConcatInput (go : option grid) (last early missing : bool)
+| AsPeriodicInput
+| AsExtendInput (go : option grid) (diag all_cached : bool)
+| AsRemapInput (pauli : bool)
 | PropagatorAt.
 
-Definition user_tag (g : grid) (correct : bool) : tag := if correct then TF g else TBad (glen g).
+Definition user_tag (g : grid) (u : udata) : tag := match u with UOk => TF g | _ => TBad (glen g) end.
+Definition is_shape (u : udata) : bool := match u with UShape => true | _ => false end.
 
 Definition noret (m : M unit) : M (option (tag * how)) := m ;;; ret None.
 Definition withret (m : M (tag * how)) : M (option (tag * how)) := r <- m ;; ret (Some r).
@@ -606,16 +673,30 @@ Definition is_lazy (s : slot) : bool :=
 Definition run_op (o : op) : M (option (tag * how)) :=
   match o with
   | GetCM g ci => withret (get_cm g ci)
-  | CacheCM g u ci => noret (cache_cm g (option_map (fun x => (user_tag g (fst x), snd x)) u) ci)
+  | CacheCM g u ci =>
+      match u with
+      | Some (UShape, _) => noret (shape_fail g)
+      | _ => noret (cache_cm g (option_map (fun x => (user_tag g (fst x), snd x)) u) ci)
+      end
   | GetPCCM => withret get_pccm
   | GetFF g w o ci => withret (get_ff g w o ci)
   | CacheFF g cm f w o ci =>
-      noret (cache_ff g (option_map (fun x => (user_tag g (fst x), snd x)) cm)
-                      (option_map (user_tag g) f) w o ci)
+      (* a filter function of the wrong shape is rejected; a control matrix of the wrong shape only where it is
+         used (first order, no filter function given) *)
+      let cm_used := match f, o with None, First => cm | _, _ => None end in
+      if match f with Some u => is_shape u | None => false end
+         || match cm_used with Some (u, _) => is_shape u | None => false end
+      then noret (shape_fail g)
+      else noret (cache_ff g (option_map (fun x => (user_tag g (fst x), snd x)) cm_used)
+                           (option_map (user_tag g) f) w o ci)
   | GetPCFF w => withret (get_pcff w)
   | GetDeriv g => withret (get_deriv g)
   | GetPhases g => withret (get_total_phases g)
-  | CachePhases g u => noret (cache_total_phases g (option_map (user_tag g) u))
+  | CachePhases g u =>
+      match u with
+      | Some UShape => noret (shape_fail g)
+      | _ => noret (cache_total_phases g (option_map (user_tag g) u))
+      end
   | Diagonalize => noret diagonalize
   | LazyProp s => if is_lazy s then noret (lazy_prop s) else ret None
   | TplProp => noret tpl_prop
@@ -628,22 +709,23 @@ Definition run_op (o : op) : M (option (tag * how)) :=
   | Cumulant g pw s cio => withret (cumulant g pw s cio)
   | ErrorTransferMatrix g s ci => withret (error_transfer_matrix g s ci)
   | InfidelityDerivative g => withret (infidelity_derivative g)
-  | ConcatInput g => noret (concat_input g)
-  | ExtendInput g => noret (extend_input g)
-  | PeriodicInput => noret periodic_input
-  | RemapInput => ret None
+  | AsConcatInput go last early missing => noret (as_concat_input go last early missing)
+  | AsPeriodicInput => noret as_periodic_input
+  | AsExtendInput go diag allc => noret (as_extend_input go diag allc)
+  | AsRemapInput pauli => noret (as_remap_input pauli)
   | PropagatorAt => noret propagator_at
   end.
 
 End Methods.
 
-(* user data is what the caller says it is *)
+(* user data is what the caller says it is, or is rejected for its shape -- never wrong values of the right shape *)
+Definition u_ok (u : udata) : bool := match u with UBad => false | _ => true end.
 Definition op_ok (o : op) : bool :=
   match o with
-  | CacheCM _ (Some (c, _)) _ => c
+  | CacheCM _ (Some (u, _)) _ => u_ok u
   | CacheFF _ cm f _ _ _ =>
-      match cm with Some (c, _) => c | None => true end && match f with Some c => c | None => true end
-  | CachePhases _ (Some c) => c
+      match cm with Some (u, _) => u_ok u | None => true end && match f with Some u => u_ok u | None => true end
+  | CachePhases _ (Some u) => u_ok u
   | _ => true
   end.
 
